@@ -104,8 +104,8 @@ def run_roundtrip(case):
     with Z.midi_dir("verif-c17-") as d:
         path = os.path.join(d, "r.mid")
         ok = MFO.write_Composition(path, comp, bpm)
-        if ok is not True:
-            S.problem("write_Composition return value", True, ok)
+        if not os.path.exists(path):
+            S.problem("write_Composition wrote no file", "a MIDI file", {"returned": ok})
             return
         with open(path, "rb") as fh:
             crc = zlib.crc32(fh.read())
